@@ -9,7 +9,8 @@ trial; one OnEndIteration per DoGlobalIteration call with exactly that call's ne
 Solve with the final solution; trials and result identical to the listener-free run; the console's final report contains
 the solution's own numbers (symbolic values print as tags naming the term, so the solver-decided comparison is exact).
 One family runs with refineSolution=True under the minimize contract stub (the reported value is then the refined one).
-The painting listeners (matplotlib / sklearn over numpy arrays) cannot be executed symbolically and are NOT covered.
+The painting listeners (matplotlib / sklearn over numpy arrays) cannot be executed symbolically: for them only a GROUND native
+differential run is made (harness/c13painters.py: 28 configurations, concrete objectives, with vs without the listener).
 """
 import itertools
 import os
@@ -100,10 +101,20 @@ def main():
     jobs = [(job, p) for p in plans(run)]
     run.bound(runs='up to 5 trials: reachable prefix of 0..3 concrete values + 2 arbitrary values; batches [1],[1,1],[3],[1,2],[2,2] then Solve; '
                    'all 16 override subsets (each in at least one plan; all 16 together on a fresh run); console modes full/custom/result; N in {1,2}')
-    run.not_covered('StaticPaintListener, StaticNDPaintListener, AnimationPaintListener, AnimationNDPaintListener: their painters are matplotlib / '
-                    'sklearn code over numpy arrays which the proxies cannot enter -- neither their non-interference nor their output is decided here; '
-                    'several listeners of the same kind at once; listeners that raise')
+    run.not_covered('for StaticPaintListener, StaticNDPaintListener, AnimationPaintListener, AnimationNDPaintListener (matplotlib / sklearn / scipy code over '
+                    'numpy arrays which the proxies cannot enter) non-interference is only compared on concrete runs (ground, not solver-decided) and the '
+                    'approximation (neural network) modes and the pictures themselves are not examined; several listeners of the same kind at once; listeners that raise')
     run.parallel(jobs)
+    # the painting listeners: native differential runs (ground part, see harness/c13painters.py)
+    pp = os.path.join(report.VERIF, 'harness', 'c13painters.py')
+    ok, out = run.run_replay(pp, timeout=600)
+    lines = [l for l in (out or '').splitlines() if l.strip()]
+    run.extra['painting_listeners_native_differential'] = {'script': pp, 'output': lines[-6:], 'kind': 'ground: concrete objectives, 28 listener configurations x '
+                                                          'listener-free reference; NOT solver-decided'}
+    if ok:
+        run.confirmed('C13:painters', 'a painting listener changes the trials / the result: %s' % ' | '.join(l for l in lines if 'REPRODUCED' in l)[:600], pp)
+    elif ok is None:
+        run.inconclusive.append('painting-listener differential run failed: %s' % (out or '')[-300:])
     agp.confirm(run, WANT)
     run.finish('a listener overriding any subset of callbacks is notified completely and in order; recording and console listeners change neither '
                'the trials nor the result; the console report shows the solution\'s own numbers',
